@@ -32,6 +32,7 @@ type LcListener struct {
 	Unsub   bool   `json:"unsub"`
 	UnsubUs int    `json:"unsub_us"`
 	Via     string `json:"via"` // conn | context
+	AtClose bool   `json:"at_close,omitempty"` // register when the shutdown is being initiated instead of at RegUs
 }
 
 type LcPlan struct {
@@ -41,9 +42,18 @@ type LcPlan struct {
 	Shutdown  string       `json:"shutdown"` // client-close | server-close | rst | fin
 	ShutUs    int          `json:"shut_us"`
 	Noise     int          `json:"noise,omitempty"` // messages of a background channel that keeps the client's write queue full
+	NoiseSize int          `json:"noise_size,omitempty"`
+	Outlive   bool         `json:"outlive,omitempty"` // the connection stays up until every channel's end has demonstrably reached the server
 }
 
 const noiseChan = 0x7FFF
+
+// markerChan: after its Free returned, a channel's client opens a fresh channel on the same
+// connection and sends one marker. Frames leave a connection in the order they were queued and
+// the peer's reader handles them one by one, so when the marker's handler runs the server has
+// already handled the close frame of the freed channel: its handler's context must be cancelled
+// by then, however long the frames took to get through.
+const markerChan = 0x7FFE
 
 type lifecycleScn struct{}
 
@@ -62,9 +72,9 @@ func (lifecycleScn) Generate(g *simrt.Rng, tier string) any {
 	for i := 0; i < n; i++ {
 		p.Channels = append(p.Channels, LcChan{Batch: g.Bool(0.4), Handler: simrt.Pick(g, "return", "echo", "wait"), ClientUs: us(), StartUs: us()})
 	}
-	k := 1 + g.IntN(6)
+	k := 1 + g.IntN(10)
 	for i := 0; i < k; i++ {
-		p.Listeners = append(p.Listeners, LcListener{Side: simrt.Pick(g, "client", "client", "server"), RegUs: us(), Unsub: g.Bool(0.4), UnsubUs: us(), Via: simrt.Pick(g, "conn", "context")})
+		p.Listeners = append(p.Listeners, LcListener{Side: simrt.Pick(g, "client", "client", "server"), RegUs: us(), Unsub: g.Bool(0.4), UnsubUs: us(), Via: simrt.Pick(g, "conn", "context"), AtClose: g.Bool(0.4)})
 	}
 	p.Shutdown = simrt.Pick(g, "client-close", "client-close", "server-close", "rst", "fin", "halfclose-stalled")
 	if p.Shutdown == "halfclose-stalled" {
@@ -84,9 +94,18 @@ func (lifecycleScn) Generate(g *simrt.Rng, tier string) any {
 	if p.Shutdown != "halfclose-stalled" && g.Bool(0.35) {
 		// the connection outlives its channels: every channel end must reach the handler on its own
 		p.ShutUs = 5_000_000
+		p.Outlive = true
 		if g.Bool(0.6) {
 			// ... also under back-pressure: a background channel keeps the client's tiny write queue full
 			p.Noise = 10 + g.IntN(50)
+			// the write queue hands out room block by block (1 KiB and up): a small frame still fits the
+			// tail block's remainder however "full" the queue is, unless the noise frames use their block up
+			// (noise frames near the block size), or a stream of small frames fills the tail block to the brim
+			p.NoiseSize = 880 + g.IntN(150)
+			if g.Bool(0.5) {
+				p.NoiseSize = 16 + g.IntN(48)
+				p.Noise = 100 + g.IntN(300)
+			}
 			p.Net.BufCap = simrt.Pick(g, 16, 64)
 			p.Opt.WriteQueue = simrt.Pick(g, 1, 16, 64)
 			p.Opt.Window = 65535
@@ -120,6 +139,10 @@ type lcChanState struct {
 	freedAt    time.Duration // when the client's Free returned (0: not yet)
 	doneAt     time.Duration // when the handler returned
 	started    bool
+	ctx        mpx.Context   // the handler's context
+	markerSent bool
+	markerAt   time.Duration // when the server handled the marker sent after Free (0: never)
+	liveAtMark bool          // the handler's context was not cancelled when the marker arrived
 }
 
 type lcRun struct {
@@ -132,6 +155,7 @@ type lcRun struct {
 	closeBegan int64 // step at which the shutdown was initiated (0: not yet)
 	closeBeganAt time.Duration
 	srvConnCtx mpx.ConnContext
+	aboutToClose bool
 	srvConn    mpx.Conn
 	handlerInv int
 	handlerObj int64
@@ -217,10 +241,13 @@ func (lifecycleScn) Run(t *testing.T, seed uint64, plan any, o RunOpts) *Report 
 	for i, c := range r.cs {
 		// the client ended the channel well before the connection went away: the handler's context
 		// must have been cancelled by that alone (a handler that waits for it returns promptly)
-		if c.started && c.opened && c.freedAt > 0 && r.closeBeganAt > c.freedAt+2*time.Second {
-			if c.doneAt == 0 || c.doneAt > c.freedAt+2*time.Second {
-				rep.violate("C20-context-not-cancelled", "channel %d: the client freed the channel at %v, the connection stayed up until %v, but the handler (%s) was only released at %v: its context was not cancelled when the channel ended",
-					i, c.freedAt, r.closeBeganAt, p.Channels[i].Handler, c.doneAt)
+		if c.opened && c.markerAt > 0 {
+			if c.liveAtMark {
+				rep.violate("C20-context-not-cancelled", "channel %d: the client's Free returned at %v; a marker sent on the same connection after that was handled by the server at %v, so the server had handled everything the client queued before it, yet the context of the channel's handler (%s) was not cancelled: the end of the channel did not reach the handler",
+					i, c.freedAt, c.markerAt, p.Channels[i].Handler)
+			} else if c.doneAt == 0 || c.doneAt > c.markerAt {
+				rep.violate("C20-context-not-cancelled", "channel %d: the client's Free returned at %v; a marker sent on the same connection after that was handled by the server at %v, but the handler (%s) was only released at %v (connection shutdown began at %v): its context was not cancelled when the channel ended",
+					i, c.freedAt, c.markerAt, p.Channels[i].Handler, c.doneAt, r.closeBeganAt)
 			}
 			rep.count("probe:channel_ends_checked_before_shutdown", 1)
 		}
@@ -272,10 +299,21 @@ func (r *lcRun) handler(ctx mpx.Context, ch mpx.Channel) status.Status {
 			}
 		}
 	}
+	if ok && h.nonce == r.p.Nonce && h.ch == markerChan && h.seq < len(r.cs) {
+		c := r.cs[h.seq]
+		if r.closeBegan == 0 && c.markerAt == 0 {
+			c.markerAt = max(simrt.Now(), 1)
+			// (a handler that has returned no longer owns its context object: do not look at it)
+			c.liveAtMark = c.started && c.doneAt == 0 && c.ctx != nil && !c.ctx.Done()
+			simrt.Logf("marker of channel %d handled (handler started=%v, context live=%v)", h.seq, c.started, c.liveAtMark)
+		}
+		return status.OK
+	}
 	if !ok || h.nonce != r.p.Nonce || h.ch >= len(r.cs) {
 		simrt.Fail("C03-corrupt", "handler got a foreign opening payload")
 	}
 	c := r.cs[h.ch]
+	c.ctx = ctx
 	pc := r.p.Channels[h.ch]
 	c.handlers++
 	c.started = true
@@ -316,7 +354,15 @@ func (r *lcRun) handler(ctx mpx.Context, ch mpx.Channel) status.Status {
 func (r *lcRun) listenerTask(i int, cli mpx.Conn) {
 	pl := r.p.Listeners[i]
 	l := r.ls[i]
-	hSleep(time.Duration(pl.RegUs) * time.Microsecond)
+	if pl.AtClose {
+		// registers in the very instant the shutdown is initiated: the scheduler interleaves the two
+		hWaitCond("lc.at-close", func() bool { return r.aboutToClose })
+		for k := pl.RegUs % 4; k > 0; k-- {
+			hYield("lc.at-close")
+		}
+	} else {
+		hSleep(time.Duration(pl.RegUs) * time.Microsecond)
+	}
 	var flag async.Flag
 	var reg func(fn func()) (func(), bool)
 	if pl.Side == "client" {
@@ -392,6 +438,13 @@ func (r *lcRun) main() {
 			c.endEvent = true
 			ch.Free()
 			c.freedAt = max(simrt.Now(), 1)
+			if p.Outlive && c.opened {
+				if mch, st := cli.Channel(r.bg); st.OK() {
+					mch.SendAndClose(r.bg, payload(p.Nonce, markerChan, 0, 0, i, 24))
+					mch.Free()
+				}
+			}
+			c.markerSent = true
 		})
 	}
 	for i := range p.Listeners {
@@ -399,6 +452,10 @@ func (r *lcRun) main() {
 		g.goTask(fmt.Sprintf("lis%d", i), func() { r.listenerTask(i, cli) })
 	}
 	if p.Noise > 0 {
+		noiseSize := p.NoiseSize
+		if noiseSize == 0 {
+			noiseSize = 2000
+		}
 		g.goTask("noise", func() {
 			ch, st := cli.Channel(r.bg)
 			if !st.OK() {
@@ -406,7 +463,7 @@ func (r *lcRun) main() {
 			}
 			defer ch.Free()
 			for k := 0; k < p.Noise; k++ {
-				if st := ch.Send(r.bg, payload(p.Nonce, noiseChan, 0, 0, k, 2000)); !st.OK() {
+				if st := ch.Send(r.bg, payload(p.Nonce, noiseChan, 0, 0, k, noiseSize)); !st.OK() {
 					return
 				}
 			}
@@ -414,7 +471,22 @@ func (r *lcRun) main() {
 	}
 	g.goTask("shutdown", func() {
 		hSleep(time.Duration(p.ShutUs) * time.Microsecond)
+		if p.Outlive {
+			// the connection outlives its channels: wait until every marker got through (simulated time is free)
+			hWaitCondUntil("lc.wait-markers", func() bool {
+				for _, c := range r.cs {
+					if !c.markerSent || (c.opened && c.markerAt == 0) {
+						return false
+					}
+				}
+				return true
+			}, time.Now().Add(15*time.Minute))
+			if n := bytequeue.VerifStranded(); n > 0 {
+				simrt.Fail("F1-bytequeue-lost-wakeup", "%d byte queue(s) hold unread data in a later block while their reader is parked without a wake-up token: the connection's traffic stalled", n)
+			}
+		}
 		simrt.Logf("shutdown begins: %s", p.Shutdown)
+		r.aboutToClose = true
 		switch p.Shutdown {
 		case "client-close":
 			r.markEnd()
